@@ -51,6 +51,37 @@ fn main() {
                 println!("VIOL {:?}", v);
             }
         }
+        Some("time") => {
+            // simcheck time <family> <seed>: where one run spends its time
+            let fam = &args[2];
+            let seed: u64 = args[3].parse().unwrap();
+            let t = std::time::Instant::now();
+            let prog = gen::generate(fam, seed);
+            let t_gen = t.elapsed();
+            let rec = exec::run_program(&prog, seed, None, false);
+            let t_run = t.elapsed();
+            let d = Digest::new(&rec);
+            let t_dig = t.elapsed();
+            let v = oracle::check_all(&d);
+            let t_or = t.elapsed();
+            println!("{:?} steps={} events={} violations={} gen={:?} run={:?} digest={:?} oracles={:?}", rec.out.end, rec.out.steps, rec.ev.len(), v.len(), t_gen, t_run - t_gen, t_dig - t_run, t_or - t_dig);
+            for x in v.iter().take(3) {
+                println!("VIOL {:?}", x);
+            }
+            let t = std::time::Instant::now();
+            let mut abs = std::collections::BTreeSet::new();
+            worker::abstract_states(&d, &mut abs);
+            let t_abs = t.elapsed();
+            let np = props::probes(&d).len();
+            let t_pr = t.elapsed();
+            for p in ["C03", "C09", "C19", "C05"] {
+                let _ = props::nontrivial(p, &d);
+            }
+            let t_nt = t.elapsed();
+            let _ = worker::sample_json(&rec, 0);
+            let t_sj = t.elapsed();
+            println!("abstract_states={:?} ({}) probes={:?} ({np}) nontrivial={:?} sample_json={:?}", t_abs, abs.len(), t_pr - t_abs, t_nt - t_pr, t_sj - t_nt);
+        }
         Some("batch") => {
             simrt::pin_to_core(2);
             let fam = &args[2];
